@@ -8,6 +8,7 @@ import (
 	"os"
 	"path/filepath"
 	"sort"
+	"strings"
 
 	"github.com/kevin-hanselman/dud/src/artifact"
 	"github.com/kevin-hanselman/dud/src/index"
@@ -111,11 +112,15 @@ func runOwn(o *opts) {
 		var ops []string
 		var acc []string
 		nacc := 0
+		var allNames []string
+		var allStages [][]Art
 		for k, a := range sq {
 			name := names[(perm+k*5)%len(names)]
 			// multi-output stages now and then: add a harmless second output
 			outs := []Art{a.art()}
 			stg := mkStageGo(nil, outs, "")
+			allNames = append(allNames, name)
+			allStages = append(allStages, outs)
 			err := idx.AddStage(stg, name)
 			rec := &StageRec{Out: outs}
 			ops = append(ops, "("+cxs(name)+", "+rec.coq()+")")
@@ -144,7 +149,7 @@ func runOwn(o *opts) {
 		if nacc < len(sq) {
 			distinct[fmt.Sprint(sq)] = true
 		}
-		cases = append(cases, fmt.Sprintf("mkOwn %d %s %s %s %s", id, clist(ops), clist(acc), cbool(reload), clist(probes)))
+		cases = append(cases, fmt.Sprintf("mkOwn %d %s %s %s %s %s", id, clist(ops), clist(acc), cbool(reload), cbool(loadHandIndex(allNames, allStages)), clist(probes)))
 		s.CaseIndex[fmt.Sprint(id)] = map[string]interface{}{"seq": fmt.Sprint(sq), "accepted": nacc}
 		for _, n := range names {
 			os.Remove(n)
@@ -162,9 +167,13 @@ func runOwn(o *opts) {
 		}
 		var ops, acc []string
 		nacc := 0
+		var allNames []string
+		var allStages [][]Art
 		for k, outs := range seqv {
 			name := names[k]
 			stg := mkStageGo(nil, outs, "")
+			allNames = append(allNames, name)
+			allStages = append(allStages, outs)
 			// a stage must be valid on its own before it can be added (stage add loads it with FromFile)
 			err := stg.Validate(name)
 			if err == nil {
@@ -189,7 +198,7 @@ func runOwn(o *opts) {
 		if nacc < 2 {
 			distinct[fmt.Sprint(t)] = true
 		}
-		cases = append(cases, fmt.Sprintf("mkOwn %d %s %s %s []", id, clist(ops), clist(acc), cbool(reload)))
+		cases = append(cases, fmt.Sprintf("mkOwn %d %s %s %s %s []", id, clist(ops), clist(acc), cbool(reload), cbool(loadHandIndex(allNames, allStages))))
 		s.CaseIndex[fmt.Sprint(id)] = map[string]interface{}{"two_output_stage": fmt.Sprint(t), "accepted": nacc}
 		for _, n := range names {
 			os.Remove(n)
@@ -255,4 +264,23 @@ func runOwn(o *opts) {
 	s.write(o.out)
 	os.Chdir(cwd)
 	rmrf(tmp)
+}
+
+// loadHandIndex writes EVERY stage of a sequence (accepted by AddStage or not) and an index that
+// lists them all, as a user editing stage files after `dud stage add` would leave them, and
+// reports whether index.FromFile accepts it.
+func loadHandIndex(names []string, outs [][]Art) bool {
+	for i, n := range names {
+		must(os.MkdirAll(filepath.Dir(n), 0o755))
+		stg := mkStageGo(nil, outs[i], "") // a fresh value: ToFile is not meant to be called twice on one
+		must(stg.ToFile(n))
+	}
+	must(os.MkdirAll(".dud", 0o755))
+	must(os.WriteFile(".dud/index.hand", []byte(strings.Join(names, "\n")+"\n"), 0o644))
+	_, err := index.FromFile(".dud/index.hand")
+	if err != nil && os.Getenv("VERIF_DEBUG") != "" {
+		fmt.Fprintln(os.Stderr, "DEBUG hand index:", names, err)
+	}
+	os.Remove(".dud/index.hand")
+	return err == nil
 }
